@@ -9,11 +9,13 @@
      wf t           t is coherent: every entry's shape starts with its node's batch size, names name every batch dim
      rel bs bs' t t'  t' is t with the leading bs of EVERY shape (entries and nested batch sizes, at every depth)
                     replaced by bs', same keys in the same order, trailing feature / extra batch dims untouched *)
-From Coq Require Import ZArith List Bool String.
+From Coq Require Import ZArith List Bool String Lia.
 Import ListNotations.
 From TD Require Import Spec.PySlice Spec.C02_TorchShape Model.C02_ShapeOps
                        Proofs.C02_FrameP Proofs.C02_OpsP Proofs.C02_RefuteP Proofs.C02_MultiP Proofs.C02_StackP
-                       Proofs.C02_NamesP Proofs.C02_RejectP Proofs.C02_RejLiftP Proofs.C02_RejOpsP Proofs.C02_RejMultiP.
+                       Proofs.C02_NamesP Proofs.C02_RejectP Proofs.C02_RejLiftP Proofs.C02_RejOpsP Proofs.C02_RejMultiP
+                       Proofs.C02_MoreP Spec.C02_TorchElem Model.C02_Elem Proofs.C02_ElemP.
+From TD Require Spec.C08_Dense Model.C08_Lazy Proofs.C02_LazyP.
 Open Scope string_scope.
 Open Scope Z_scope.
 
@@ -110,6 +112,74 @@ Theorem C02_masked_select : forall t cnt,
   exists t', td_masked_select t (top_shape t) cnt = Done t' /\ top_shape t' = [cnt] /\ rel (top_shape t) [cnt] t t'.
 Proof. exact masked_select_acts_on_batch_dims. Qed.
 Print Assumptions C02_masked_select.
+
+Open Scope list_scope.
+(* repeat_interleave(r) without a dim on a batch of rank >= 1: tensordict's chain reshape(-1); repeat_interleave(r, dim=0) *)
+Theorem C02_repeat_interleave_none : forall t r,
+  wf t -> is_node t -> top_shape t <> [] -> 0 <= r ->
+  t_repeat_interleave (top_shape t) r None = Ok [numel (top_shape t) * r] /\
+  exists t', td_repeat_interleave t r None = Done t' /\ top_shape t' = [numel (top_shape t) * r] /\
+             rel (top_shape t) [numel (top_shape t) * r] t t' /\ wf t'.
+Proof. exact repeat_interleave_none. Qed.
+Print Assumptions C02_repeat_interleave_none.
+
+(* gather: an index with one dim per batch dim, not larger than the batch off the gather dim (torch's rule for the
+   batch shape; an index without elements is not validated by torch), first dim not 0 (tensordict's restriction):
+   the result has the index's shape, every entry is gathered with the index expanded over its trailing dims *)
+Theorem C02_gather : forall t d ish i,
+  wf t -> is_node t -> wrap_dim d (List.length (top_shape t)) = Ok i -> gather_ok (top_shape t) ish i ->
+  t_gather (top_shape t) d ish = Ok ish /\
+  exists t', gather_at t d ish = Done t' /\ top_shape t' = ish /\ rel (top_shape t) ish t t' /\ wf t'.
+Proof. exact gather_acts_on_batch_dims. Qed.
+Print Assumptions C02_gather.
+
+(* ---------------------------------------------------------------------------------------------------------------
+   The element level.  [leaf_calls t o] = the torch calls tensordict's method o makes on the tensors of t (any depth),
+   each with the shape of the tensor it is made on; [e_src o' s r] = the position of the source element that the torch
+   call o' on a tensor of shape s puts at position r of its result (Spec/C02_TorchElem, validated against torch on every
+   run); [inb r s] = r is a multi-index of shape s.  For the order-preserving family (view, reshape, flatten, unflatten,
+   squeeze, unsqueeze) and expand, repeat, repeat_interleave(dim): every such call is made on a tensor of shape
+   bs ++ feat, and its element map is (the element map of o on a tensor of the batch shape) (x) (identity on feat). *)
+Theorem C02_elements_follow_batch_dims : forall t o bs',
+  wf t -> is_node t -> in_domain o (top_shape t) -> elem_domain o -> torch_shape o (top_shape t) = Ok bs' ->
+  Forall (fun c => exists feat, snd c = top_shape t ++ feat /\
+            forall r f, inb r bs' -> inb f feat ->
+              exists v, e_src o (top_shape t) r = Some v /\ e_src (fst c) (snd c) (r ++ f) = Some (v ++ f))
+         (leaf_calls t o).
+Proof. exact elements_follow_batch_dims. Qed.
+Print Assumptions C02_elements_follow_batch_dims.
+
+(* the ravel / unravel lemma behind the reshaping family: keeping the row-major order on batch ++ feat is keeping it on the
+   batch, for every feat *)
+Theorem C02_reshape_is_batch_map_tensor_id : forall s s' tl r f,
+  nonneg s -> prodZ s = prodZ s' -> inb r s' -> inb f tl ->
+  e_reshape (s ++ tl) (s' ++ tl) (r ++ f) = e_reshape s s' r ++ f.
+Proof. exact reshape_tensor. Qed.
+Print Assumptions C02_reshape_is_batch_map_tensor_id.
+
+(* ---------------------------------------------------------------------------------------------------------------
+   Lazy stacks (LazyStackedTensorDict._permute as transcribed by C08: Model/C08_Lazy.lz_permute).  For every rank, every
+   stack dim, every number of members and every permutation torch accepts for the DERIVED batch size (the members' batch
+   size with the member count inserted at the stack dim): the result is a lazy stack whose derived batch size is torch's
+   shape, whose stack dim holds the member count, and sits where dims names the old stack dim (argsort(dims)[stack_dim]:
+   the arithmetic seeded change C02-2 breaks). *)
+Theorem C02_lazy_permute : forall sd bs0 parts bs dims bs' fuel,
+  parts <> [] -> Forall (fun p => C08_Dense.shape_of p = Some bs) parts -> Forall (fun p => C08_Lazy.is_stack p = false) parts ->
+  (sd <= List.length bs)%nat ->
+  t_permute (C08_Dense.insert_at sd (C08_Dense.lenZ parts) bs) dims = Ok bs' ->
+  exists nsd ms, C08_Lazy.lz_permute (S fuel) (C08_Dense.Stack sd bs0 parts) dims = C08_Lazy.Ok (C08_Dense.Stack nsd bs0 ms) /\
+                 C08_Dense.shape_of (C08_Dense.Stack nsd bs0 ms) = Some bs' /\ C08_Dense.lenZ ms = C08_Dense.lenZ parts /\
+                 nth_error bs' nsd = Some (C08_Dense.lenZ parts) /\
+                 nth_error (map (fun d => if d <? 0 then d + Z.of_nat (S (List.length bs)) else d) dims) nsd = Some (Z.of_nat sd).
+Proof. exact C02_LazyP.lazy_permute_batch_size. Qed.
+Print Assumptions C02_lazy_permute.
+
+Example C02_ex_lazy_permute :
+  let parts := [C08_Dense.Leaf 0 [3; 4]; C08_Dense.Leaf 1 [3; 4]] in
+  t_permute (C08_Dense.insert_at 0 (C08_Dense.lenZ parts) [3; 4]) [1; -1; 0] = Ok [3; 4; 2] /\
+  C08_Lazy.lz_permute 2 (C08_Dense.Stack 0 [3; 4] parts) [1; -1; 0]
+    = C08_Lazy.Ok (C08_Dense.Stack 2 [3; 4] [C08_Dense.Perm [0; 1]%nat (C08_Dense.Leaf 0 [3; 4]); C08_Dense.Perm [0; 1]%nat (C08_Dense.Leaf 1 [3; 4])]).
+Proof. split; vm_compute; reflexivity. Qed.
 
 (* ---------------------------------------------------------------------------------------------------------------
    Illegal arguments.  Full statement: whatever torch rejects for the batch shape, tensordict rejects.  After
@@ -239,6 +309,16 @@ Theorem C02_names_expand : forall bs nm ents shape t',
 Proof. exact names_expand. Qed.
 Print Assumptions C02_names_expand.
 
+Theorem C02_names_transpose : forall bs nm ents a b i j t',
+  wrap_dim a (List.length bs) = Ok i -> wrap_dim b (List.length bs) = Ok j -> i <> j ->
+  names_wf nm bs -> has_names nm = true ->
+  apply (Node bs nm ents) (OTranspose a b) = Done t' ->
+  exists nl', root_names t' = Some nl' /\ List.length nl' = List.length bs /\ List.length (top_shape t') = List.length bs /\
+    forall k, (k < List.length bs)%nat ->
+      nth k nl' None = nth (tr i j k) (names_list nm (List.length bs)) None /\ nthZ (top_shape t') k = nthZ bs (tr i j k).
+Proof. exact names_transpose. Qed.
+Print Assumptions C02_names_transpose.
+
 Theorem C02_names_flatten : forall bs nm ents a b i j t',
   bs <> [] -> wrap_dim a (List.length bs) = Ok i -> wrap_dim b (List.length bs) = Ok j -> (i < j)%nat ->
   names_wf nm bs -> has_names nm = true ->
@@ -357,6 +437,28 @@ Example C02_ex_reject_with_entries :
   torch_shape (OUnflatten 2 [2; 2]) (top_shape ex_tree) = Reject /\ apply ex_tree (OUnflatten 2 [2; 2]) = Raised ERuntime /\
   t_split_list (top_shape ex_tree) [1; 1] 2 = Reject /\ td_split ex_tree (inr [1; 1]) 2 = Raised ERuntime.
 Proof. split; [exact I|]. split; [vm_compute; reflexivity|]. split; [exact ex_hasleaf_view|]. repeat split; vm_compute; reflexivity. Qed.
+
+Example C02_ex_elements :
+  elem_domain (OView [3; 2]) /\ torch_shape (OView [3; 2]) (top_shape ex_tree) = Ok [3; 2] /\
+  leaf_calls ex_tree (OView [3; 2]) =
+    [(OView [3; 2], [2; 1; 3]); (OView [3; 2; 4; 5], [2; 1; 3; 4; 5]); (OView [3; 2; 2], [2; 1; 3; 2]);
+     (OView [3; 2; 2; 1; 3], [2; 1; 3; 2; 1; 3])] /\
+  inb [2; 1] [3; 2] /\ inb [3; 4] [4; 5] /\
+  e_src (OView [3; 2]) [2; 1; 3] [2; 1] = Some [1; 0; 2] /\
+  e_src (OView [3; 2; 4; 5]) [2; 1; 3; 4; 5] [2; 1; 3; 4] = Some [1; 0; 2; 3; 4] /\
+  e_src (OExpand [2; 2; 2; 3]) [2; 1; 3] [1; 0; 1; 2] = Some [0; 0; 2] /\
+  e_src (ORepeat [2; 2; 1]) [2; 1; 3] [3; 1; 2] = Some [1; 0; 2].
+Proof. repeat split; try (vm_compute; reflexivity); repeat constructor; lia. Qed.
+
+Example C02_ex_gather :
+  wrap_dim (-1) 3 = Ok 2%nat /\ gather_ok (top_shape ex_tree) [2; 1; 5] 2 /\
+  exists t', gather_at ex_tree (-1) [2; 1; 5] = Done t' /\ top_shape t' = [2; 1; 5].
+Proof.
+  split; [reflexivity|]. split.
+  { split; [reflexivity|]. split; [cbn; lia|]. split; [repeat constructor; lia|]. split; [unfold nthZ; cbn; lia|].
+    right. split; [reflexivity|unfold nthZ; cbn; lia]. }
+  eexists. split; vm_compute; reflexivity.
+Qed.
 
 Example C02_ex_cat :
   wrap_dim (-1) (List.length (top_shape ex_tree)) = Ok 2%nat /\ cong (cat_R 2) ex_tree ex_tree
